@@ -257,8 +257,70 @@ class InstRecorder:
             return r
 
         VenomCompiler._prepare_stack_for_function = prep
+
+        # block entry after a splitter (clean_stack_from_cfg_in): for ANY incoming stack the cleaned stack map must be
+        #   (dead slots)* ++ (items that are all live into this block from the predecessor), no live-in item lost,
+        # and the emitted POP/SWAP/spill code must realise exactly that map (dead slots hold anything).
+        self._orig_clean = VenomCompiler.clean_stack_from_cfg_in
+        rec.n_clean = 0
+
+        def clean(vc, asm, bb, stack, bound=None):
+            start = len(asm)
+            before = list(stack._stack)
+            sp = vc.spiller
+            slots0 = set(sp._spill_free_slots)
+            next0 = sp._next_spill_offset
+            r = rec._orig_clean(vc, asm, bb, stack, bound)
+            after = list(stack._stack)
+            dead = lambda x: type(x).__name__ == "_DeadStackItem"  # noqa
+            try:
+                in_bb = vc.cfg.cfg_in(bb).first()
+                inputs = list(vc.liveness.input_vars_from(in_bb, bb))
+                layout = list(vc.liveness.out_vars(in_bb))
+                seen_live = False
+                for x in after:
+                    if dead(x):
+                        if seen_live:
+                            raise Unsupported("a retained dead slot is above a live item")
+                    else:
+                        seen_live = True
+                stray = [x for x in before if not dead(x) and x not in layout]
+                if stray:
+                    raise Unsupported(f"incoming stack holds {stray}, not in the predecessor's output layout {layout}")
+                junk = [x for x in after if not dead(x) and x not in inputs]
+                if junk:
+                    raise Unsupported(f"after the cleanup the stack still holds {junk}, which are not live into the block (inputs {inputs})")
+                for x in inputs:
+                    if before.count(x) != after.count(x):
+                        raise Unsupported(f"live-in item {x} occurs {before.count(x)} time(s) before and {after.count(x)} after the cleanup")
+                if [x for x in before if x in inputs] != [x for x in after if x in inputs] and len(asm) == start:
+                    raise Unsupported("live items reordered without code")
+                slots = slots0 | set(sp._spill_free_slots)
+                if next0 is not None and sp._next_spill_offset is not None:
+                    slots |= set(range(next0, sp._next_spill_offset, 32))
+                m = Machine(before, {}, slots)
+                toks = tokenize(asm[start:])
+                i = 0
+                while i < len(toks):
+                    j = m.manip(toks, i)
+                    if j is None:
+                        raise Unsupported(f"token {toks[i]} in a block-entry cleanup")
+                    i = j
+                if len(m.s) != len(after) or not all(dead(o) or same(vc, s_, o) for s_, o in zip(m.s, after)):
+                    raise Unsupported(f"machine stack {m.s} != stack map {after}")
+                rec.n_ok += 1
+                rec.n_clean += 1
+                rec.by_op["<cleanup>"] = rec.by_op.get("<cleanup>", 0) + 1
+            except Unsupported as e:
+                rec.fail.append({"function": bb.parent.name.value, "block": bb.label.value, "instruction": "<block-entry cleanup>",
+                                 "stack_before": [str(x) for x in before], "assembly": [str(x) for x in asm[start:]],
+                                 "stack_after": [str(x) for x in after], "problem": str(e)})
+            return r
+
+        VenomCompiler.clean_stack_from_cfg_in = clean
         return self
 
     def __exit__(self, *a):
         self._cls._generate_evm_for_instruction = self._orig
         self._cls._prepare_stack_for_function = self._orig_prep
+        self._cls.clean_stack_from_cfg_in = self._orig_clean
